@@ -1,6 +1,7 @@
 package stream
 
 import (
+	"bytes"
 	"encoding/binary"
 	"fmt"
 	"io"
@@ -15,17 +16,22 @@ func Read[T allowedGenericTypes](reader io.Reader) (result T, err error) {
 }
 
 func ReadBytes(reader io.Reader, length int) ([]byte, error) {
-	readBytes := make([]byte, length)
+	if length < 0 {
+		return nil, ierrors.Errorf("failed to read serialized bytes: invalid length %d", length)
+	}
+	if length == 0 {
+		return []byte{}, nil
+	}
 
-	nBytes, err := reader.Read(readBytes)
+	// The length might come from an untrusted length prefix, so the buffer grows with the data that is actually
+	// available instead of being allocated upfront. A reader is also allowed to return less than requested per call.
+	var buffer bytes.Buffer
+	nBytes, err := io.CopyN(&buffer, reader, int64(length))
 	if err != nil {
-		return nil, ierrors.Wrap(err, "failed to read serialized bytes")
-	}
-	if nBytes != length {
-		return nil, ierrors.Errorf("failed to read serialized bytes: read bytes (%d) != size (%d)", nBytes, length)
+		return nil, ierrors.Wrapf(err, "failed to read serialized bytes: read bytes (%d) != size (%d)", nBytes, length)
 	}
 
-	return readBytes, nil
+	return buffer.Bytes(), nil
 }
 
 // ReadBytesWithSize reads a byte slice from the reader where lenType specifies the serialization length prefix type.
